@@ -58,6 +58,11 @@ pub struct Engine {
     conn_threshold: u32,
     recv_pending: HashMap<u32, u32>,
     stream_threshold: u32,
+    my_stream_window: u32,
+    /// body bytes the owner expects on a stream (Content-Length, or what it asked for)
+    recv_expected: HashMap<u32, u64>,
+    /// flow-control credit granted so far per stream (initial window + WINDOW_UPDATEs)
+    granted: HashMap<u32, u64>,
     cont: Option<(u32, bool, Vec<u8>)>,
     pub fatal: Option<String>,
     pub trace: Option<String>,
@@ -100,6 +105,9 @@ impl Engine {
             conn_threshold: (conn_window.max(65_535) / 2).max(1),
             recv_pending: HashMap::new(),
             stream_threshold: stream_threshold.clamp(1, stream_window.max(1)),
+            my_stream_window: stream_window,
+            recv_expected: HashMap::new(),
+            granted: HashMap::new(),
             cont: None,
             fatal: None,
             trace: None,
@@ -110,6 +118,14 @@ impl Engine {
             empty_frames_in: 0,
         };
         (e, hello)
+    }
+
+    /// the peer will send `bytes` of body on `stream`: no WINDOW_UPDATE is sent once the credit
+    /// already granted covers it (like a client that knows the Content-Length). sozu counts a
+    /// WINDOW_UPDATE arriving after it has closed the stream as a "glitch" towards
+    /// ENHANCE_YOUR_CALM (100 per second), which a slow reader of many short streams reaches.
+    pub fn expect_body(&mut self, stream: u32, bytes: u64) {
+        self.recv_expected.insert(stream, bytes);
     }
 
     pub fn open_send(&mut self, stream: u32) {
@@ -339,11 +355,14 @@ impl Engine {
                 if end {
                     self.recv_pending.remove(&f.stream);
                 } else if flow > 0 {
+                    let granted = self.granted.entry(f.stream).or_insert(self.my_stream_window as u64);
+                    let covered = self.recv_expected.get(&f.stream).is_some_and(|exp| *granted >= *exp + 1024);
                     let e = self.recv_pending.entry(f.stream).or_insert(0);
                     *e += flow;
-                    if *e >= self.stream_threshold {
+                    if *e >= self.stream_threshold && !covered {
                         let inc = *e;
                         *e = 0;
+                        *granted += inc as u64;
                         self.ctrl.extend(encode_frame(&Frame::window_update(f.stream, inc)));
                     }
                 }
@@ -606,6 +625,8 @@ pub fn client_conn(env: &CellEnv, conn: &ConnPlan) -> Vec<XferOutcome> {
     }
     pump.out.extend_from_slice(&hello);
     let mut enq: u64 = hello.len() as u64;
+    let mut staged: std::collections::VecDeque<(Vec<u8>, Option<usize>)> = std::collections::VecDeque::new();
+    let mut staged_bytes = 0usize;
 
     // when does each stream start: all at once, or staggered by bytes moved on the connection
     let stagger = match rng.below(3) {
@@ -686,13 +707,11 @@ pub fn client_conn(env: &CellEnv, conn: &ConnPlan) -> Vec<XferOutcome> {
             let method = if shape.is_some() { "POST" } else { "GET" };
             let list = h2::request_headers(method, "https", &host, &path, &extra);
             let mut snd = Sender::new(st.id, x.req_msg, x.req_size, shape, list);
-            // the HEADERS that opens the stream goes out now: stream ids must appear in increasing order
-            let before = pump.out.len();
-            snd.produce(&mut eng, &mut pump.out);
-            enq += (pump.out.len() - before) as u64;
-            if snd.done() {
-                st.sent_mark = Some(enq);
-            }
+            // the HEADERS that opens the stream is queued now: stream ids must appear in increasing order
+            let mut unit = Vec::new();
+            snd.produce(&mut eng, &mut unit);
+            staged_bytes += unit.len();
+            staged.push_back((unit, if snd.done() { Some(i) } else { None }));
             st.sender = Some(snd);
             st.started = true;
             st.obs.attempted = true;
@@ -702,15 +721,11 @@ pub fn client_conn(env: &CellEnv, conn: &ConnPlan) -> Vec<XferOutcome> {
         let open_now = streams.iter().filter(|s| s.started && !s.finished).count();
         max_open = max_open.max(open_now);
 
-        // top up: control frames first, then the senders round-robin
+        // produce frames into the staging queue, the senders round-robin
         if pump.wfail.is_none() {
-            if !eng.ctrl.is_empty() {
-                enq += eng.ctrl.len() as u64;
-                pump.out.append(&mut eng.ctrl);
-            }
             let n = streams.len();
             let mut blocked = 0;
-            while pump.pending_out() < TOPUP && blocked < n {
+            while staged_bytes < TOPUP && blocked < n {
                 let i = rr % n;
                 rr += 1;
                 let st = &mut streams[i];
@@ -722,27 +737,40 @@ pub fn client_conn(env: &CellEnv, conn: &ConnPlan) -> Vec<XferOutcome> {
                     blocked += 1;
                     continue;
                 }
-                let before = pump.out.len();
                 // a few frames in a row per stream, so that senders interleave at frame granularity
                 let burst = 1 + (rr % 3);
                 let mut any = false;
                 for _ in 0..burst {
-                    if !snd.produce(&mut eng, &mut pump.out) {
+                    let mut unit = Vec::new();
+                    if !snd.produce(&mut eng, &mut unit) {
                         break;
                     }
                     any = true;
+                    staged_bytes += unit.len();
+                    staged.push_back((unit, if snd.done() { Some(i) } else { None }));
                     if snd.done() {
                         break;
                     }
                 }
-                enq += (pump.out.len() - before) as u64;
                 if any {
                     blocked = 0;
-                    if snd.done() {
-                        st.sent_mark = Some(enq);
-                    }
                 } else {
                     blocked += 1;
+                }
+            }
+            // hand the socket one frame at a time, control frames (SETTINGS ACK, WINDOW_UPDATE,
+            // PING ACK) always ahead of the DATA still waiting in the staging queue
+            if pump.pending_out() == 0 {
+                if !eng.ctrl.is_empty() {
+                    enq += eng.ctrl.len() as u64;
+                    pump.out.append(&mut eng.ctrl);
+                } else if let Some((unit, fin)) = staged.pop_front() {
+                    staged_bytes -= unit.len();
+                    enq += unit.len() as u64;
+                    pump.out.extend_from_slice(&unit);
+                    if let Some(i) = fin {
+                        streams[i].sent_mark = Some(enq);
+                    }
                 }
             }
         }
@@ -781,6 +809,10 @@ pub fn client_conn(env: &CellEnv, conn: &ConnPlan) -> Vec<XferOutcome> {
                             st.obs.from_backend = code == 200 && header_str(&list, "x-msg").is_some_and(|v| v.trim() == x.resp_msg.to_string());
                             st.obs.resp.head_seen = true;
                             st.obs.resp.recv_framing = "h2".into();
+                            if st.obs.from_backend {
+                                // (padding is flow-controlled too: the margin is in expect_body's user)
+                                eng.expect_body(stream, x.resp_size + x.resp_size / 8);
+                            }
                         } else {
                             st.obs.resp.trailers = Some(list.len());
                             if !end {
@@ -883,7 +915,7 @@ pub fn client_conn(env: &CellEnv, conn: &ConnPlan) -> Vec<XferOutcome> {
             stalled = true;
             stall_silence = WATCHDOG_NO_PROGRESS.as_secs();
             break;
-        } else if !env.generous && silent > WATCHDOG_SENDER_DONE && next_to_open >= order.len() && pump.flushed() {
+        } else if !env.generous && silent > WATCHDOG_SENDER_DONE && next_to_open >= order.len() && pump.flushed() && staged.is_empty() {
             // nothing moves on any socket of the connection's exchanges, our output is flushed, and
             // every unfinished stream has either sent its whole request or is blocked on the flow
             // control credit sozu grants; the backends have nothing left to send or wait for a request
@@ -949,7 +981,7 @@ pub fn client_conn(env: &CellEnv, conn: &ConnPlan) -> Vec<XferOutcome> {
             sh.back_obs(x.key)
         } else if o.client.from_backend && o.client.resp.ended {
             let sent = o.client.req_sent_complete;
-            sh.wait_back(x.key, Duration::from_millis(1500), |b| (b.resp_sent_complete || b.resp_error.is_some()) && (b.req.ended || b.req.error.is_some() || b.eager || !sent))
+            sh.wait_back(x.key, Duration::from_millis(1500), |b| (b.resp_sent_complete || b.resp_error.is_some()) && (b.req.ended || b.req.error.is_some() || !sent))
         } else {
             sh.wait_back(x.key, Duration::from_millis(300), |b| b.req.ended || b.req.error.is_some())
         };
@@ -1172,6 +1204,9 @@ pub fn backend_conn(sh: &Arc<CellShared>, sock: TcpStream, idx: usize, lprog: &I
                             eng.ctrl.extend(encode_frame(&Frame::rst_stream(stream, h2::ERR_REFUSED_STREAM)));
                             continue;
                         };
+                        if !end {
+                            eng.expect_body(stream, x.req_size + x.req_size / 8);
+                        }
                         if !prog_set {
                             pump.set_prog(&x.backend_prog);
                             pump.begin_message();
@@ -1203,13 +1238,7 @@ pub fn backend_conn(sh: &Arc<CellShared>, sock: TcpStream, idx: usize, lprog: &I
                             resp_complete: false,
                             first_seen,
                         };
-                        // like most H2 servers, answer a request that announces no body from its
-                        // HEADERS (15 of 16; the others insist on END_STREAM first)
-                        let eager = !end && !x.req_framing.has_body() && x.key % 16 != 0;
-                        if eager {
-                            sh.with_back(x.key, |b| b.eager = true);
-                        }
-                        if end || x.mode == Mode::Early || eager {
+                        if end || x.mode == Mode::Early {
                             start_response(&mut st, stream);
                         }
                         streams.insert(stream, st);
